@@ -44,3 +44,9 @@ claim("C20", "Proof of the representation invariant of RewardScaler (count, mean
 claim("C15", "Proof that the 8 dihedral maps and the rotation/reflection with arbitrary angle preserve squared distances between any two points of an instance (polynomial identities, NRA; cos^2+sin^2=1 assumed), that copy 0 is the identity, that StateAugmentation places copy a of instance b at row a*B+b; and that the augmentation / multi-start / combined evaluators compute rewards on the original instance of each row and return, per instance, the maximum over its own candidates with the actions of that candidate.",
       not_covered=["float32 rounding (A1)", "SamplingEval / GreedyEval delegate to the policy (stand-in)", "EvalBase.__call__ concatenation (stand-in)"],
       assumptions=["cos^2+sin^2=1, cos 0=1, sin 0=0 for the uninterpreted trigonometric functions"])
+claim("C06", "Bounded stand-in only so far (labelled bounded): on tiny instances every mask-generated and every brute-force feasible solution must be accepted by check_solution_validity and every single-edit corruption found infeasible by an independent oracle must be rejected.",
+      level="exploration", note="Bounded run-time contract check, not a proof.")
+claim("C07", "Bounded stand-in only so far (labelled bounded): exhaustive enumeration of all mask-admitted action sequences on tiny FJSP/JSSP/FFSP/SMTWTP instances plus random episodes, checked against an independent dispatch simulation and schedule-validity oracle.",
+      level="exploration", note="Bounded run-time contract check, not a proof.")
+claim("C10", "Bounded stand-in only so far (labelled bounded): process_logits / top-k / top-p / greedy / sampling against a float64 reference over the exhaustive value grid and random families stated in the evidence.",
+      level="exploration", note="Bounded run-time contract check, not a proof.")
